@@ -244,6 +244,27 @@ def specials_cases():
     return cases
 
 
+def x_stream(ctx, st):
+    """Host/ActuatorsX.v servo_bounds_accepted vs the real constructor on bounds that may be IEEE specials
+    (correspondence only: this stream contains the witnesses of F-C19-servo-nonfinite-bound)"""
+    vals = [NAN, INF, -INF, Fr(0), Fr(180), Fr(544), Fr(2400), Fr(-90)]
+    combos = [(a, b, c, d) for a in vals for b in vals for c in vals for d in vals]
+    cases = [("servo", [ABSENT, a, b, c, d], []) for a, b, c, d in combos]
+    impl = S.run_impl("servo", cases)
+    if not ctx.exes.get(UNIT):
+        return 0
+    model = ctx.model([[1] + [S.WX(v) for v in combo] for combo in combos], unit=UNIT)
+    n_dis = 0
+    for case, m, r in zip(cases, model, impl):
+        want = "ok" if m == [1] else "ValueError" if m == [0] else "?"
+        got = "ok" if r["ctor"][0] == "ok" else r["ctor"][1]
+        st.bump(st.ctor, "servo-specials:" + got)
+        if want != got and n_dis < 5:
+            n_dis += 1
+            ctx.disagree("servo: constructor bound checks on floats with IEEE specials", S.replayable(case), want, got)
+    return len(cases)
+
+
 # --------------------------------------------------------------------------
 # entry points
 # --------------------------------------------------------------------------
@@ -280,6 +301,7 @@ def run_unit(ctx: C.Ctx) -> dict:
     for case, r in zip(spec, S.run_impl("servo", spec, real_sleep=True)):
         n_spec += len(r["steps"])
         oracle(ctx, st, case, r, safety_only=True)
+    n_x = x_stream(ctx, st)
     replay_findings(ctx)
     # report the shortest failing history of each class first (ctx.finish keeps the first per key)
     ctx.failures[n_fail0:] = sorted(ctx.failures[n_fail0:], key=lambda f: len(f["case"]["calls"]))
@@ -287,6 +309,7 @@ def run_unit(ctx: C.Ctx) -> dict:
     samples = [S.show_case(cases[i]) for i in (0, len(cases) // 3, len(cases) // 2, len(cases) - 1)]
     dist = S.distribution(st)
     dist["specials_stream_ops_implementation_only"] = n_spec
+    dist["constructor_calls_with_ieee_special_bounds_compared_with_model"] = n_x
     return {
         "unit": UNIT,
         "evaluations": st.steps,
@@ -300,8 +323,8 @@ def run_unit(ctx: C.Ctx) -> dict:
                     "50%" if ctx.tier == "thorough" else "30%")),
         "samples": samples,
         "distribution": dist,
-        "guard": ("arguments are ints, bools, None and dyadic floats (no NaN/inf); the listed finding F-C19-servo-nan-bound (a NaN calibration bound is "
-                  "accepted) lies outside: constructor arguments are never NaN in the generated streams"),
+        "guard": ("arguments are ints, bools, None and dyadic floats (no NaN/inf); the listed finding F-C19-servo-nonfinite-bound (a NaN / infinite calibration bound "
+                  "is accepted) lies outside: constructor arguments are never NaN in the generated streams"),
         "unmodelled": [
             "binary64 rounding: model floats are exact rationals; compared to 1e-9 relative (a one-ulp excursion of a servo bound under write_us is float rounding, tolerated)",
             "IEEE specials (NaN, inf), -0.0, strings and ints beyond the float range as arguments of write/write_us: sent to the implementation only, oracle = invariant + atomicity of failing calls",
